@@ -270,7 +270,9 @@ DYN_TAGS = ['{field.memo}', '{source}', '{extract("REF:(\\\\d+)")}', '{label}', 
             '{extract(field.code, "REF:(\\\\S+)")}', '{extract("\\\\D+ (\\\\d+)")}', '{split(field.code, "B", 0)}', '{extract(field.memo, "PROJ:(\\\\S+)")}',
             '{split(description, "S", 1)}',
             # parentheses / commas inside a string literal of the expression are text, not tag-list syntax
-            '{split(description, "(", 0)}', '{"big,spender" if amount > 100 else "small)"}', '{split(field.code, ")", 0)}']
+            '{split(description, "(", 0)}', '{"big,spender" if amount > 100 else "small)"}', '{split(field.code, ")", 0)}',
+            # a tag that looks its value up in a supplemental source (only meaningful where the check supplies rows / orders)
+            '{next((r.item for r in orders if r.qty > 0), "none")}', '{next((r.item for r in rows if r.amt == amount), "no-row")}']
 TRANSFORMS = [
     ('field.description', 'regex_replace(field.description, "^SQ \\\\*", "")'),
     ('field.description', 'strip_prefix(field.description, "UBER ")'),
